@@ -114,6 +114,22 @@ def _public(repo: Repo, m: FuncInfo) -> bool:
     return not m.name.startswith("_")
 
 
+def _returns_text(T, m: FuncInfo) -> bool:
+    """Return annotation is str / a collection of str (or absent)."""
+    if m.node.returns is None:
+        return True
+
+    def texty(t) -> bool:
+        for x in members(t):
+            if x == ("b", "str", ()):
+                return True
+            if x[0] == "b" and x[1] in ("list", "set", "seq", "iter", "frozenset", "tuple") and x[2] and any(texty(a) for a in x[2]):
+                return True
+        return False
+
+    return texty(T.ann(m.module, m.node.returns))
+
+
 # --------------------------------------------------------------------------- R2
 
 
@@ -207,8 +223,8 @@ def run_r2(repo: Repo, res: Result) -> None:
                     args.append(v)
                 try:
                     rv = it.call_method(det, entry.name, args, f"run-{world}")
-                except RuntimeError as e:
-                    raise AnalysisError(f"{entry.fq}: {e}") from e
+                except (RuntimeError, RecursionError, KeyError, AttributeError, TypeError, IndexError, ValueError) as e:
+                    raise AnalysisError(f"{entry.fq}: abstract interpretation failed ({type(e).__name__}: {e})") from e
                 objs = [sh for sh in rv if isinstance(sh, Ref) and sh.kind == "obj" and it.cell(sh).ci is not None and it.cell(sh).ci.fq == viol.fq]
                 if not objs:
                     res.undecide("C03.R2", f"{entry.relpath}::{cls.name}.{entry.name}::result", f"the abstract evaluation did not produce a RuleViolations object ({'; '.join(it.tops[:2]) or 'no value'})", where(entry, entry.node))
@@ -279,10 +295,10 @@ def run_r3_r4(repo: Repo, res: Result) -> None:
         entries = []
         for k in repo.mro(cls):
             for m in k.methods.values():
-                if _public(repo, m) and not m.is_abstract and repo.lookup_method(cls, m.name) is m and any(_mentions_class(_ann(T, m, p), viol.fq) for p in m.params[1:]):
+                if _public(repo, m) and not m.is_abstract and repo.lookup_method(cls, m.name) is m and any(_mentions_class(_ann(T, m, p), viol.fq) for p in m.params[1:]) and _returns_text(T, m):
                     entries.append(m)
         if not entries:
-            raise AnalysisError(f"{cls.fq}: no public method taking RuleViolations found")
+            raise AnalysisError(f"{cls.fq}: no public method turning RuleViolations into text found")
         for entry in entries:
             rendered: dict[str, bool] = {f: True for f in fields}
             missing_in: dict[str, set] = {f: set() for f in fields}
@@ -308,8 +324,8 @@ def run_r3_r4(repo: Repo, res: Result) -> None:
                 args = [V(rv) if _mentions_class(_ann(T, entry, p), viol.fq) else V(Opaque(p.arg)) for p in entry.params[1:]]
                 try:
                     out = it.call_method(gen, entry.name, args, f"run-{world}")
-                except RuntimeError as e:
-                    raise AnalysisError(f"{entry.fq}: {e}") from e
+                except (RuntimeError, RecursionError, KeyError, AttributeError, TypeError, IndexError, ValueError) as e:
+                    raise AnalysisError(f"{entry.fq}: abstract interpretation failed ({type(e).__name__}: {e})") from e
                 w = it.has_top(out)
                 if w:
                     tops.add(w)
@@ -433,8 +449,8 @@ def run_r5(repo: Repo, res: Result) -> None:
             args = [V(it.coll(("input", p), "input", V(Sc(srcs=frozenset({p}))))) for p in params]
             try:
                 out = it.call_method(obj, q.name, args, "query")
-            except RuntimeError as e:
-                raise AnalysisError(f"{impl.fq}: {e}") from e
+            except (RuntimeError, RecursionError, KeyError, AttributeError, TypeError, IndexError, ValueError) as e:
+                raise AnalysisError(f"{impl.fq}: abstract interpretation failed ({type(e).__name__}: {e})") from e
             head = f"{impl.relpath}::{cls.name}.{q.name}"
             dicts = [sh for sh in out if isinstance(sh, Ref) and sh.kind == "dict"]
             w = it.has_top(out)
@@ -442,6 +458,7 @@ def run_r5(repo: Repo, res: Result) -> None:
                 res.undecide("C03.R5", f"{head}::result", f"the abstract evaluation of the query lost track ({w or '; '.join(it.tops[:2]) or ('no search call reached' if not calls else 'result is not a dictionary')})", where(impl, impl.node))
                 continue
             pset = set(params)
+            clean = not it.tops
             # (a) what every search receives
             extra: list[str] = []
             partial: list[str] = []
@@ -473,6 +490,9 @@ def run_r5(repo: Repo, res: Result) -> None:
                                 extra.append(f"`{norm(c['node'], 80)}`: a collection that is not one of the complete module sets {sorted(pset)}")
                         else:
                             extra.append(f"`{norm(c['node'], 80)}`: an argument of kind {type(sh).__name__}{' (' + sh.why + ')' if isinstance(sh, Top) else ''}")
+            if not clean and (extra or sorted(pset - used)):
+                res.undecide("C03.R5", f"{head}::searches", f"the abstract evaluation met constructs it does not model ({'; '.join(it.tops[:2])})", where(impl, impl.node))
+                continue
             n += 1
             ok = not extra
             res.add("C03.R5", f"{head}::independent searches", ok, "each search receives only the graph, its own key and the whole opposite set" if ok else f"a search also receives {extra[0]}: state is shared between the searches of one batch, so a pair found for one key can be missing under another", where(impl, calls[0]["node"]) if calls else where(impl, impl.node), kind="flow")
@@ -582,8 +602,8 @@ def run_r6(repo: Repo, res: Result) -> None:
                 it.stale = set(stale)
                 it.stale_reads = []
                 it.call_method(matcher, entry.name, [V(Sc(srcs=frozenset({"evaluable#2"}))) if _mentions_class(_ann(T, entry, p), proto.fq) else V(Opaque(p.arg)) for p in entry.params[1:]], "call-2")
-            except RuntimeError as e:
-                raise AnalysisError(f"{entry.fq}: {e}") from e
+            except (RuntimeError, RecursionError, KeyError, AttributeError, TypeError, IndexError, ValueError) as e:
+                raise AnalysisError(f"{entry.fq}: abstract interpretation failed ({type(e).__name__}: {e})") from e
             if not consulted:
                 res.undecide("C03.R6", f"{head}::second application", f"the abstract evaluation never saw the evaluable being queried ({'; '.join(it.tops[:2]) or 'no call on it'})", where(entry, entry.node))
                 continue
